@@ -26,13 +26,16 @@ def make_integrity(rng, kind, algo, data):
         return f"{ref.sri(o, data)} {good}", {"Ok"}
     if kind == "multi-with-correct-and-wrong-same-algo":
         return f"{ref.sri(algo, data + b'?')} {good}", {"Ok"}
+    if kind == "existing-other-content":
+        # the correct digest of bytes that another key stores; the data being written is different
+        return ref.sri("sha256", b"previous value"), ({"IntegrityError"} if algo == "sha256" else {"IntegrityError", "Ok"})
     if kind == "multi-all-wrong":
         o = other_algo(rng, algo)
         return f"{ref.sri(o, data + b'!')} {ref.sri(algo, data + b'!')}", {"IntegrityError"}
     raise ValueError(kind)
 
 
-INTEGRITY_KINDS = ["none", "none", "correct", "wrong-same-algo", "correct-other-algo", "wrong-other-algo",
+INTEGRITY_KINDS = ["none", "none", "correct", "wrong-same-algo", "existing-other-content", "correct-other-algo", "wrong-other-algo",
                    "multi-with-correct", "multi-with-correct-and-wrong-same-algo", "multi-all-wrong"]
 
 
@@ -73,7 +76,11 @@ def run(ctx):
         if dsize is not None and dsize < 0:
             dsize, sclass = ln + 1, "plus1"
         ikind = rng.choice(INTEGRITY_KINDS)
+        if ikind == "existing-other-content" and (shared or data == prior_data):
+            ikind = "wrong-same-algo"
         dsri, iallowed = make_integrity(rng, ikind, algo, data)
+        if ikind == "existing-other-content":
+            shared = True       # the holder of that content is watched across the commit
         size_ok = dsize is None or dsize == ln
         allowed = set()
         if "Ok" in iallowed and size_ok:
